@@ -1108,7 +1108,9 @@ def copy_or_shift_logic(
         )
 
     # Perform shifting/copying
+    merge_children_input = merge_children
     for from_path, to_path in zip(from_paths, to_paths):
+        merge_children = merge_children_input
         if with_full_path:
             from_node = search.find_full_path(tree, from_path)
         else:
